@@ -296,3 +296,31 @@ Section Closure.
     unfold closure. rewrite Eg, Hn. reflexivity.
   Qed.
 End Closure.
+
+(** * Reverse has no hidden state (seeded change C19-i) *)
+
+(** Whatever the caller did to the graph before - edits, earlier Reverse
+    calls - every [Reverse] answers the reverse of the graph's content at
+    that moment. *)
+Theorem reverse_of_current_content sh : forall ops g,
+  run_gops sh g (ops ++ [GReverse]) =
+  run_gops sh g ops ++ [rev_graph sh (fold_left (fun g o => match o with GEdit f => f g | GReverse => g end) ops g)].
+Proof.
+  induction ops as [|o r IH]; intros g; [reflexivity|].
+  destruct o as [f|]; cbn [app run_gops fold_left]; [apply IH|]. rewrite IH. reflexivity.
+Qed.
+
+(** earlier Reverse calls change nothing for later ones *)
+Theorem reverse_calls_do_not_matter sh : forall ops g,
+  run_gops sh g (GReverse :: ops) = rev_graph sh g :: run_gops sh g ops.
+Proof. reflexivity. Qed.
+
+(** A cached reverse is refuted: a -> b, Reverse, then the caller adds the
+    edge b -> a ... here: replaces the content by b -> a; the second Reverse
+    still answers the reverse of the OLD content. *)
+Lemma cached_reverse_refuted :
+  let g0 := [(0, [1]); (1, [])]%N in
+  let edit := GEdit (fun _ => [(0, []); (1, [0])]%N) in
+  run_gops_cached sh_id g0 None [GReverse; edit; GReverse] = [[(0, []); (1, [0])]; [(0, []); (1, [0])]]%N /\
+  run_gops sh_id g0 [GReverse; edit; GReverse] = [[(0, []); (1, [0])]; [(0, [1]); (1, [])]]%N.
+Proof. vm_compute. split; reflexivity. Qed.
